@@ -98,6 +98,18 @@ void setOutputTap(OutputTap tap);
 RunResult execPlan(const Plan& plan);
 // basic-block edges of library code executed so far in this process (asan variant; 0 elsewhere)
 uint64_t edgeCount();
+// comparison operands recorded during one library call (edgecount.cpp; asan variant only, empty elsewhere)
+namespace cmpfb
+{
+struct Operand
+{
+    uint64_t constant;
+    uint64_t observed;
+    int width;  // bytes
+};
+void arm(std::vector<Operand>* sink);
+void disarm();
+}  // namespace cmpfb
 
 // which rule ids are "probes" that make a run non-trivial, per property (documentation for evidence)
 const char* nontrivialRule(const std::string& prop);
